@@ -35,7 +35,7 @@ from . import norm
 
 
 class Expander:
-    def __init__(self, repo, resolve_call, max_depth: int = 8):
+    def __init__(self, repo, resolve_call, max_depth: int = 8, call_writes=None):
         self.repo = repo
         self.resolve_call = resolve_call
         self.max_depth = max_depth
@@ -44,11 +44,33 @@ class Expander:
         # optional normalisation applied to every expanded tree before it is
         # printed/compared (e.g. `~(a < b)` -> `b <= a`)
         self.post = None
+        # call_writes(fi, call) -> local names whose object the call may write
+        # (interprocedural effect summaries); they count as mutations
+        self.call_writes = call_writes
+        # False: substitute a definition even where a name it reads has been
+        # rebound since (the caller then reasons about the value *at the
+        # definition*, e.g. a quantity computed once from shapes)
+        self.check_stability = True
 
     def rd(self, fi: FunctionInfo) -> ReachingDefs:
         r = self._rd.get(fi.qualname)
         if r is None:
-            r = self._rd[fi.qualname] = ReachingDefs(fi.node)
+            extra = None
+            if self.call_writes is not None:
+                cw = self.call_writes
+
+                def extra(n, fi=fi):
+                    out = set()
+                    a = n.ast
+                    if a is None or n.kind not in ("stmt", "test", "return", "for"):
+                        return out
+                    body = a if n.kind != "for" else a.iter
+                    for c in ast.walk(body):
+                        if isinstance(c, ast.Call):
+                            out |= set(cw(fi, c))
+                    return out
+
+            r = self._rd[fi.qualname] = ReachingDefs(fi.node, extra_mut=extra)
         return r
 
     # ------------------------------------------------------------------ API
@@ -137,12 +159,18 @@ class Expander:
         if defs == [-1] or (not defs and e.id in bindings):
             if e.id in bindings:
                 return clone_ast(bindings[e.id])
-            return clone_ast(e)
+            return self._leaf(e, bindings, bool(defs))
+        if len(defs) > 1 and -1 in defs and all(d == -1 or self._self_coercion(rd.node_by_id.get(d), e.id) for d in defs):
+            # a parameter that is only ever replaced by a coercion of itself
+            # (`if isinstance(X, DataFrame): X = X.values`): the same data
+            if e.id in bindings:
+                return clone_ast(bindings[e.id])
+            return self._leaf(e, bindings, True)
         if len(defs) != 1 or defs[0] < 0:
-            return clone_ast(e)
+            return self._leaf(e, bindings, bool(defs))
         key = (fi.qualname, e.id, defs[0])
         if key in seen:
-            return clone_ast(e)
+            return self._leaf(e, bindings, True)
         seen = seen | {key}
         dn = rd.node_by_id[defs[0]]
         a = dn.ast
@@ -152,12 +180,42 @@ class Expander:
             # unexpanded at the definition; if one of them has been reassigned or
             # mutated between the definition and this use, it would denote
             # another value here: keep the name
-            if r is not None and not self._stable(rd, dn, node, r, e.id):
-                return clone_ast(e)
-            return r if r is not None else clone_ast(e)
+            if r is not None and not self._stable(rd, dn, node, r, e.id, fi, bindings, depth, seen):
+                return self._leaf(e, bindings, True)
+            return r if r is not None else self._leaf(e, bindings, True)
         if dn.kind == "for":
             return self._loopvar(e.id, a, fi, bindings, depth, seen)
+        return self._leaf(e, bindings, True)
+
+    def _leaf(self, e: ast.Name, bindings, local: bool):
+        """a name left unexpanded; inside an inlined callee a *local* one is
+        tagged, so that the inlining can be abandoned (the caller has no such
+        variable)"""
+        if local and bindings.get("__callee__") is not None:
+            return ast.Name(id=f"{e.id}@{bindings['__callee__']}", ctx=ast.Load())
         return clone_ast(e)
+
+    _COERCE_ATTR = {"values", "A"}
+    _COERCE_CALL = {"asarray", "array", "ascontiguousarray", "check_array", "as_float_array", "asanyarray"}
+    _COERCE_METH = {"astype", "to_numpy", "copy", "toarray"}
+
+    def _self_coercion(self, dn, name) -> bool:
+        a = dn.ast if dn is not None else None
+        if dn is None or dn.kind != "stmt" or not isinstance(a, ast.Assign) or len(a.targets) != 1:
+            return False
+        if not (isinstance(a.targets[0], ast.Name) and a.targets[0].id == name):
+            return False
+        v = a.value
+        if isinstance(v, ast.Attribute) and isinstance(v.value, ast.Name) and v.value.id == name and v.attr in self._COERCE_ATTR:
+            return True
+        if isinstance(v, ast.Call):
+            f = v.func
+            fn = f.attr if isinstance(f, ast.Attribute) else (f.id if isinstance(f, ast.Name) else "")
+            if fn in self._COERCE_CALL and v.args and isinstance(v.args[0], ast.Name) and v.args[0].id == name:
+                return True
+            if isinstance(f, ast.Attribute) and fn in self._COERCE_METH and isinstance(f.value, ast.Name) and f.value.id == name:
+                return True
+        return False
 
     def _name_def(self, e, a, dn, fi, bindings, depth, seen):
         if isinstance(a, ast.AnnAssign) and a.value is not None and isinstance(a.target, ast.Name):
@@ -177,7 +235,22 @@ class Expander:
             return ast.BinOp(left=prev, op=clone_ast(a.op), right=self._x(a.value, fi, a, bindings, depth + 1, seen))
         return None
 
-    def _stable(self, rd, dn, use, xv, name) -> bool:
+    def lenient(self):
+        ex = self
+
+        class _L:
+            def __enter__(self_):
+                self_.old = ex.check_stability
+                ex.check_stability = False
+
+            def __exit__(self_, *a):
+                ex.check_stability = self_.old
+
+        return _L()
+
+    def _stable(self, rd, dn, use, xv, name, fi=None, bindings=None, depth=0, seen=frozenset()) -> bool:
+        if not self.check_stability:
+            return True
         """may `xv` (the expansion, at its definition `dn`, of the value bound to
         `name`) be substituted at `use`?  Every name left in it must denote the
         same value there: same reaching definitions, except attribute stores
@@ -199,12 +272,16 @@ class Expander:
                 continue
             if v == name:
                 continue
-            if None in attrs:
-                return False
-            for d in d1 ^ d2:
+            # definitions that reach the use but not the definition site; the ones
+            # that no longer reach were overwritten by these (or lie on other paths)
+            for d in d2 - d1:
                 node = rd.node_by_id.get(d)
                 st = node.ast if node is not None else None
                 if not isinstance(st, (ast.Assign, ast.AugAssign, ast.AnnAssign)) or node.kind != "stmt":
+                    return False
+                if self._rebinds_same(node, st, v, fi, bindings, depth, seen):
+                    continue
+                if None in attrs:
                     return False
                 tgts = st.targets if isinstance(st, ast.Assign) else [st.target]
                 flat = []
@@ -220,6 +297,22 @@ class Expander:
                     return False
         return True
 
+    def _rebinds_same(self, node, st, v, fi, bindings, depth, seen) -> bool:
+        """`v = <coercion of v>` or an assignment whose expansion is v itself
+        (e.g. a helper that returns its argument, possibly coerced)"""
+        if self._self_coercion(node, v):
+            return True
+        if fi is None or depth > self.max_depth or not isinstance(st, ast.Assign):
+            return False
+        key = ("same", fi.qualname, v, node.id)
+        if key in seen:
+            return False
+        try:
+            r = self._name_def(ast.Name(id=v, ctx=ast.Load()), st, node, fi, bindings or {}, depth + 1, seen | {key})
+        except RecursionError:
+            return False
+        return isinstance(r, ast.Name) and r.id == v
+
     def _tuple_elem(self, value, pos, n, fi, at, bindings, depth, seen):
         if isinstance(value, (ast.Tuple, ast.List)) and len(value.elts) == n:
             return self._x(value.elts[pos], fi, at, bindings, depth, seen)
@@ -234,6 +327,12 @@ class Expander:
             # not inlinable: keep a positional projection of the (expanded) call
             call = self._call(value, fi, at, bindings, depth, seen, no_inline=True)
             return ast.Subscript(value=call, slice=ast.Constant(pos), ctx=ast.Load())
+        if isinstance(value, (ast.Subscript, ast.Name, ast.Attribute)):
+            # `a, b = seq[0]`  ->  a is seq[0][0] (unpacking a sequence)
+            base = self._x(value, fi, at, bindings, depth, seen)
+            if isinstance(base, (ast.Tuple, ast.List)) and len(base.elts) == n:
+                return base.elts[pos]
+            return ast.Subscript(value=base, slice=ast.Constant(pos), ctx=ast.Load())
         return None
 
     def _loopvar(self, name, loop: ast.For, fi, bindings, depth, seen):
@@ -297,6 +396,10 @@ class Expander:
                 continue
             if isinstance(s, ast.If) and not s.orelse and all(isinstance(b, (ast.Return, ast.Raise, ast.Expr, ast.Assign)) for b in s.body) and isinstance(s.body[-1], (ast.Return, ast.Raise)):
                 continue
+            if isinstance(s, ast.If) and not s.orelse and all(isinstance(b, ast.Assign) and all(isinstance(t, ast.Name) for t in b.targets) for b in s.body):
+                # conditional re-assignments: the names they bind have several
+                # definitions and are therefore never expanded through
+                continue
             return None
         return body[-1]
 
@@ -349,7 +452,11 @@ class Expander:
         for x, dflt in zip(a_.kwonlyargs, a_.kw_defaults):
             if dflt is not None:
                 b.setdefault(x.arg, clone_ast(dflt))
-        return self._x(ret.value, callee, ret, b, depth + 1, seen | {("inline", callee.qualname)})
+        b["__callee__"] = callee.name
+        r = self._x(ret.value, callee, ret, b, depth + 1, seen | {("inline", callee.qualname)})
+        if any(isinstance(n, ast.Name) and n.id.endswith("@" + callee.name) for n in ast.walk(r)):
+            return None  # the result depends on callee-local state the expander cannot follow
+        return r
 
 
 def _target_path(target, name) -> Tuple[int, ...]:
